@@ -661,6 +661,9 @@ def _run_weak_sim(
     # digital_tjm returns a measurement outcome structure for weak sim
     backend: Callable[[tuple[int, MPS, NoiseModel | None, WeakSimParams, QuantumCircuit]], Any] = digital_tjm
 
+    # Measurement storage belongs to this run: results of an earlier run must not be aggregated again
+    sim_params.measurements = [None] * sim_params.shots
+
     # Trajectory count policy
     if noise_model is None or all(proc["strength"] == 0 for proc in noise_model.processes):
         sim_params.num_traj = 1
